@@ -1,27 +1,28 @@
-"""copies confirmed seeded changes from /tmp/seed-<id>/<n>/ into /verif/seeded/<id>-<n>/ and evaluates the checks on each"""
-import json, os, shutil, subprocess, sys, glob, re
+"""(re)generates /verif/seeded/<id>-<n>/meta.json: what the agent said is needed, what was confirmed (confirm.log), and
+what the checks report for the patch (sa/evalseed.py on a scratch copy).  Usage: python3 sa/mkseeded.py [<id>-<n> ...]"""
+import json, os, subprocess, sys, glob, re
 VERIF = os.path.dirname(os.path.dirname(os.path.abspath(__file__)))
-for d in sorted(glob.glob("/tmp/seed-C*/[12]")):
-    if not os.path.exists(d + "/patch.diff") or not os.path.exists(d + "/confirm.log"):
+only = sys.argv[1:]
+for out in sorted(glob.glob(os.path.join(VERIF, "seeded", "C*-*"))):
+    name = os.path.basename(out)
+    if only and name not in only:
         continue
-    pid = re.search(r"seed-(C\d+)/(\d)", d)
-    name = "%s-%s" % (pid.group(1), pid.group(2))
-    out = os.path.join(VERIF, "seeded", name)
-    os.makedirs(out, exist_ok=True)
-    for f in ("patch.diff", "demo.rs", "notes.md", "confirm.log"):
-        if os.path.exists(d + "/" + f):
-            shutil.copy(d + "/" + f, out + "/" + ("agent_notes.md" if f == "notes.md" else f))
-    log = open(d + "/confirm.log").read()
+    if not os.path.exists(out + "/patch.diff") or not os.path.exists(out + "/confirm.log"):
+        continue
+    prop, n = name.split("-")
+    log = open(out + "/confirm.log").read()
     res = re.findall(r"test result: (\w+)\. (\d+) passed; (\d+) failed", log)
-    p = subprocess.run([sys.executable, os.path.join(VERIF, "sa", "evalseed.py"), d + "/patch.diff"], capture_output=True, text=True)
+    p = subprocess.run([sys.executable, os.path.join(VERIF, "sa", "evalseed.py"), out + "/patch.diff"], capture_output=True, text=True)
     try:
         keys = json.loads(p.stdout)
     except Exception:
         keys = {"error": p.stdout[-300:] + p.stderr[-300:]}
-    notes = open(d + "/notes.md").read() if os.path.exists(d + "/notes.md") else ""
+    notes = open(out + "/agent_notes.md").read() if os.path.exists(out + "/agent_notes.md") else ""
+    old = json.load(open(out + "/meta.json")) if os.path.exists(out + "/meta.json") else {}
     meta = {
         "id": name,
-        "breaks_property": pid.group(1),
+        "breaks_property": prop,
+        "round": old.get("round", 1 if int(n) <= 2 else 2),
         "source": "fresh sub-agent given only the property text and its own scratch worktree (nothing from /verif)",
         "needs_to_manifest": notes.strip().split("\n\n")[0][:1200],
         "confirmed": {
@@ -33,9 +34,11 @@ for d in sorted(glob.glob("/tmp/seed-C*/[12]")):
         "checks": {
             "how": "python3 sa/evalseed.py patch.diff (scratch copy of /repo + patch, dev-profile facts, all 20 properties' rules; new violation keys only)",
             "new_violation_keys": keys,
-            "caught_by_target_property": pid.group(1) in keys,
+            "caught_by_target_property": prop in keys,
             "caught_by_any": bool(keys) and "error" not in keys,
         },
     }
+    if "first_evaluation" in old:
+        meta["first_evaluation"] = old["first_evaluation"]
     json.dump(meta, open(out + "/meta.json", "w"), indent=1, ensure_ascii=False)
     print(name, "target" if meta["checks"]["caught_by_target_property"] else ("other" if meta["checks"]["caught_by_any"] else "MISSED"), sorted(keys))
